@@ -68,6 +68,7 @@ def run(idx: Index, rep: Report, tier: str):
     check_add_gate(idx, rep)
     check_ctor_summaries(idx, rep)
     check_metadata_readers(idx, rep)
+    check_width_propagation(idx, rep)
     rep.stats.update({"alias_" + k: v for k, v in an.stats.items()})
 
 
@@ -955,3 +956,78 @@ def check_metadata_readers(idx: Index, rep: Report):
     names = {n.value for n in ast.walk(ms.node) if isinstance(n, ast.Constant) and isinstance(n.value, str) and n.value.isupper()}
     rep.decide(names == {"MEASURE", "CMEASURE"}, rule, ms, ms.node, text=f"is_mixed_state tests {sorted(names)}",
                what="mixed-state flag is true iff a MEASURE or CMEASURE gate is counted", reason=f"tests {sorted(names)}")
+
+
+# ---------------------------------------------------------------------------------------------------
+# fixed-width propagation of the combining operations (folded on circuit records, flags x marker widths)
+# ---------------------------------------------------------------------------------------------------
+
+def check_width_propagation(idx: Index, rep: Report):
+    rule = "K9.width-propagation"
+    from ..consteval import Folder, Raised, Rec, Undecidable
+    from .C17 import CTORS, CircRec
+    import copy as _copy
+
+    def g(name, t, c=None, p=""):
+        return Rec("Gate", {"name": name, "target": list(t), "control": c, "parameter": p, "is_variational": False})
+
+    def folder():
+        fo = Folder(ctors=dict(CTORS))
+        fo.env["np.integer"] = None
+        fo.env["copy"] = None
+        return fo
+    circ = idx.cls(f"{CIRCUIT}::Circuit")
+    add = circ.methods["__add__"]
+    for fa, fb in ((None, None), (4, None), (None, 6), (4, 6)):
+        a = CircRec([g("X", [1])], n_qubits=fa)
+        b = CircRec([g("H", [2])], n_qubits=fb)
+        fo = folder()
+        try:
+            r = fo.run_function(add.node, {"self": a, "other": b})
+        except (Undecidable, Raised) as e:
+            raise AnalysisError(f"Circuit.__add__ not foldable: {e}")
+        want_fixed = max(a.fields["width"], b.fields["width"]) if (fa or fb) else None
+        ok = isinstance(r, Rec) and r.fields["_qubits_simulated"] == want_fixed and [x.fields["name"] for x in r.fields["_gates"]] == ["X", "H"]
+        rep.decide(ok, rule, add, add.node, text=f"a(n_qubits={fa}) + b(n_qubits={fb}) -> fixed width {want_fixed}, gates of a then b",
+                   what="the concatenation has a fixed width iff one operand has, then the larger of the two widths; gates of the left operand come first",
+                   reason=f"got n_qubits={r.fields.get('_qubits_simulated') if isinstance(r, Rec) else r}, gates {[x.fields['name'] for x in r.fields['_gates']] if isinstance(r, Rec) else '?'}")
+    mul = circ.methods["__mul__"]
+    for fa in (None, 5):
+        a = CircRec([g("X", [1]), g("H", [0])], n_qubits=fa)
+        fo = folder()
+
+        def ih(v, t):
+            return isinstance(v, int) and not isinstance(v, bool) if "int" in t else None
+        fo.isinstance_hook = ih
+        try:
+            r = fo.run_function(mul.node, {"self": a, "n_repeat": 3})
+        except (Undecidable, Raised) as e:
+            raise AnalysisError(f"Circuit.__mul__ not foldable: {e}")
+        ok = isinstance(r, Rec) and r.fields["_qubits_simulated"] == fa and [x.fields["name"] for x in r.fields["_gates"]] == ["X", "H"] * 3
+        rep.decide(ok, rule, mul, mul.node, text=f"a(n_qubits={fa}) * 3 repeats the gate list three times and keeps the fixed width",
+                   what="repetition keeps the gate order and the fixed width", reason=f"got {r!r}"[:200])
+    for bad in (0, -2):
+        fo = folder()
+        fo.isinstance_hook = lambda v, t: (isinstance(v, int) and not isinstance(v, bool)) if "int" in t else None
+        try:
+            fo.run_function(mul.node, {"self": CircRec([g("X", [0])]), "n_repeat": bad})
+            rep.violation(rule, mul, mul.node, text=f"a * {bad} refused", what="repetition counts below one are refused", reason="accepted")
+        except Raised:
+            rep.ok(rule, mul, mul.node, text=f"a * {bad} refused", what="repetition counts below one are refused")
+        except Undecidable as e:
+            raise AnalysisError(f"Circuit.__mul__ not foldable: {e}")
+    cp = circ.methods["copy"]
+    rets = [n for n in own_nodes(cp.node) if isinstance(n, ast.Return)]
+    ok = False
+    if rets and isinstance(rets[0].value, ast.Call) and norm(rets[0].value.func) == "Circuit":
+        c = rets[0].value
+        kws = {k.arg: norm(k.value) for k in c.keywords}
+        ok = norm(c.args[0]) == "copy.deepcopy(self._gates)" and kws.get("n_qubits") == "self._qubits_simulated" and kws.get("name") == "self.name"
+    rep.decide(ok, rule, cp, cp.node, text="copy = Circuit(deepcopy(gates), n_qubits=fixed width, name=name, ...)", what="a copy has the same gates, fixed width and name and shares nothing with the original",
+               reason=f"copy built as {norm(rets[0].value) if rets else '?'}")
+    for fn in ("remove_small_rotations", "remove_redundant_gates"):
+        f = idx.function(f"{CIRCUIT}::{fn}")
+        rets = [n for n in own_nodes(f.node) if isinstance(n, ast.Return)]
+        ok = bool(rets) and norm(rets[0].value) == "Circuit(gates) if remove_qubits else Circuit(gates, n_qubits=circuit.width)"
+        rep.decide(ok, rule, f, rets[0] if rets else f.node, text=f"{fn}: width kept unless remove_qubits", what="a simplification pass keeps the circuit width unless asked to drop unused qubits",
+                   reason=f"returns {norm(rets[0].value) if rets else '?'}")
